@@ -110,7 +110,7 @@ func TestVerifC22(t *testing.T) {
 	defer rep.Finish()
 	vfInitEngine()
 	th := &Thread{}
-	nq := vk.N(1500, 80000)
+	nq := vk.N(4000, 80000)
 	ncfg := 8
 	if vk.Thorough() {
 		ncfg = 16
